@@ -43,7 +43,7 @@ func (s *Session) publish(span *model.SpanContext, topic string, payload []byte,
   flag allocates
   flag frame=unchecked
   requires s != nil && s.broker != nil && s.info != nil
-  modifies published, gWroteID, gWrotePending
+  modifies published, gWroteID, gWrotePending, gOnline
   ensures published == old(store(published, ref(s), true))
   ensures a-qos1-message-is-pending-before-it-is-written: gWroteID >= 0 ==> gWrotePending && qos == 1
   ensures an-online-qos1-message-is-written: qos == 1 && gOnline ==> gWroteID >= 0
@@ -56,11 +56,11 @@ func (s *Session) publish(span *model.SpanContext, topic string, payload []byte,
 
 ghost var gOnline bool
 
-pred clientsWF(b *Broker) := forall c string :: c in b.clients ==> b.clients[c] != nil && b.clients[c].session != nil
+pred clientsWF(b *Broker) := forall c string :: c in b.clients ==> b.clients[c] != nil && b.clients[c].session != nil && b.clients[c].session.broker != nil && b.clients[c].session.info != nil
 
 func (b *Broker) sendMsgToClient(span *model.SpanContext, topic string, payload []byte, qos byte)
   requires b != nil && b.topicMgr != nil && clientsWF(b)
-  modifies published, gDom, gQoS
+  modifies published, gDom, gQoS, gWroteID, gWrotePending, gOnline
   ensures every-eligible-connected-subscriber-gets-it: forall c string :: gDom[c] && gQoS[c] >= qos && c in b.clients ==> published[ref(b.clients[c].session)]
   ensures nobody-else: forall s int :: published[s] && !old(published[s]) ==> (exists c string :: gDom[c] && gQoS[c] >= qos && c in b.clients && s == ref(b.clients[c].session))
   invariant[1] captured: gDom == dom$1 && (forall c string :: dom$1[c] ==> gQoS[c] == subscribers[c])
